@@ -176,6 +176,12 @@ def v_vertices_inplace(cx, X, e):
     return arr
 
 
+def v_with_inf(cx, X):
+    x1 = cx.real("x1")
+    cx.assume(Not(eq(x1, 1.17549435e-38)) if cx.mode == "sym" else x1 != 1.17549435e-38)
+    return mk_array(X, [float("inf"), x1, float("-inf")], (3,), "float64")
+
+
 def v_cells(w):
     def f(cx, X, e):
         n = shape(e.vertices)[0]
@@ -291,6 +297,7 @@ CASES = {
     "ConcatenatedData.name": (_concat_data, "name", v_const("renamed log"), ()),
     "FloatData.values": (_floatdata, "values", v_float_values, ()),
     "FloatData.values(read-modify-write)": (_floatdata, "values", v_float_inplace, ()),
+    "FloatData.values(with infinities)": (_floatdata, "values", lambda cx, X, e: v_with_inf(cx, X), ()),
     "Points.vertices(read-modify-write)": (_points, "vertices", v_vertices_inplace, ()),
     "FloatData.name": (_floatdata, "name", v_const("renamed"), ()),
     "FloatData.visible": (_floatdata, "visible", v_const(False), ()),
@@ -368,6 +375,28 @@ def _same(a, b):
     return eq(a, b)
 
 
+ASSIGNED_IS_SHOWN = ("Grid2D.origin", "Grid2D.rotation", "Grid2D.u_cell_size", "Grid2D.v_cell_size", "BlockModel.origin",
+                     "BlockModel.rotation", "Octree.origin", "Octree.rotation", "Octree.u_cell_size", "Octree.v_cell_size",
+                     "Octree.w_cell_size", "Drillhole.collar", "Drillhole.cost", "Drillhole.end_of_hole")
+
+
+def _flat(v):
+    """list of scalars of a number, a triple, a record or an array; None for anything else"""
+    if isinstance(v, tuple) and v and v[0] == "array":
+        return list(v[2])
+    if isinstance(v, (list, tuple)):
+        out = []
+        for x in v:
+            f = _flat(x)
+            if f is None:
+                return None
+            out += f
+        return out
+    if is_sym(v) or isinstance(v, (int, float)) and not isinstance(v, bool):
+        return [v]
+    return None
+
+
 class SetAttribute(Scenario):
     """assign one (or two, in a given order) attributes of a stored entity; compare live value, value at persist time and
     the value a fresh Workspace reads from the same file"""
@@ -435,6 +464,7 @@ class SetAttribute(Scenario):
                 _, attr, build, _ = CASES[key]
                 v = build(cx, X, ent)
                 n0 = len(calls)
+                given_value = v
                 try:
                     setattr(ent, attr, v)
                 except Exception as e:  # noqa: BLE001
@@ -448,6 +478,13 @@ class SetAttribute(Scenario):
             if not accepted:
                 return "rejected"
             live = {attr: _norm(getattr(ent, attr)) for _, attr, _ in accepted}
+            # O0: an accepted assignment of a plain number / triple is what the getter shows afterwards (a setter that silently
+            # ignores the value loses the change just as well as one that forgets to persist it)
+            if len(keys) == 1 and keys[0] in ASSIGNED_IS_SHOWN:
+                shown, given = _flat(live[accepted[0][1]]), _flat(_norm(given_value))
+                if shown is not None and given is not None and len(shown) == len(given):
+                    cx.prove(And([eq(a, b) for a, b in zip(shown, given)]),
+                             f"{keys[0]}: after an accepted assignment the getter shows the value assigned", "assignment takes effect")
             # O1: persist-after-store -- at the last persistence call issued by the setter the entity already shows the new value
             for key, attr, n0 in accepted:
                 mine = [c for c in calls[n0:] if c[0]]
